@@ -22,6 +22,8 @@ def call(pts, tol, mode):
     from tracklib.core.obs_coords import ENUCoords
     from tracklib.core.obs_time import ObsTime
     t2 = tol * tol
+    if t2 > 1000000:
+        t2 = Fraction(1000000)      # beyond every squared distance of the families (coordinates to 450): same verdicts, and it fits TLC's integers
     e = {"ev": mode, "pts": [list(p) for p in pts], "t2": [t2.numerator, t2.denominator], "tol": str(tol), "raised": False, "out": []}
     t0 = ObsTime(2020, 6, 15, 12, 0, 0).toAbsTime()
     # history (every other call): the track OBJECT was simplified before, with the same mode and tolerance, when its fixes
@@ -107,7 +109,7 @@ def job_random(args):
     seed, count = args
     rnd = random.Random(seed)
     out = []
-    tols = TOLS + [Fraction(1, 4), Fraction(2), Fraction(5), Fraction(100), Fraction(3, 10)]
+    tols = TOLS + [Fraction(1, 4), Fraction(2), Fraction(5), Fraction(100), Fraction(3, 10), Fraction(10 ** 10), Fraction(10 ** 13)]    # "far above the track's extent"
     for _ in range(count):
         n = rnd.randrange(2, 13)
         hi = rnd.choice([2, 4, 9])
